@@ -344,3 +344,22 @@ pub fn verif_expiration_offsets(ttl: u32) -> (u64, u64) {
     let secs = |at: Instant| at.duration_since(before).as_secs_f64().round() as u64;
     (secs(info.refresh_at), secs(info.expire_at))
 }
+
+/// Verification hook: the whole seconds from now until the refresh point and until the expiry the
+/// store holds for a cached record (`None`: not held as a cached record).
+#[cfg(simple_dns_verif)]
+pub fn verif_cached_offsets(
+    manager: &ResourceRecordManager<'_>,
+    resource: &ResourceRecord<'_>,
+) -> Option<(u64, u64)> {
+    let now = Instant::now();
+    let secs = |at: Instant| at.saturating_duration_since(now).as_secs_f64().round() as u64;
+    manager
+        .resources
+        .get(&get_key(&resource.name))
+        .and_then(|bucket| bucket.iter().find(|(r, _)| *r == resource))
+        .and_then(|(_, kind)| match kind {
+            ResourceRecordType::Cached(info) => Some((secs(info.refresh_at), secs(info.expire_at))),
+            ResourceRecordType::Authoritative => None,
+        })
+}
